@@ -360,6 +360,17 @@ def install(sim: SimRandom) -> None:
             elif val is _OrigRandom or val is _OrigSystemRandom:
                 _CAPTURED.append((mod, gname, val))
                 setattr(mod, gname, _PrivateRandom)
+            elif isinstance(val, _OrigRandom) and not isinstance(val, (SimRandom, _PrivateRandom)):
+                # a generator the library made for itself at import time (module level): for the
+                # duration of the run it is one seeded from the simulated generator
+                _CAPTURED.append((mod, gname, val))
+                setattr(mod, gname, _PrivateRandom())
+            elif type(val).__module__.startswith("jsonpath_rfc9535") and hasattr(val, "__dict__") and not isinstance(val, type):
+                # ... or keeps on a module-level object (the default environment, say)
+                for aname, aval in list(vars(val).items()):
+                    if isinstance(aval, _OrigRandom) and not isinstance(aval, (SimRandom, _PrivateRandom)):
+                        _CAPTURED.append((val, aname, aval))
+                        setattr(val, aname, _PrivateRandom())
     # anything that captured a bound method of the hidden instance at import
     # time stays deterministic (loses bias control, not replay)
     inst.seed(sim.getstate()[1][0])
